@@ -4,6 +4,12 @@ import json, os, subprocess
 ROOT = os.path.dirname(os.path.dirname(os.path.abspath(__file__)))
 
 CHECKS = {
+ "C01": dict(
+   technique="property-based fuzzing with process isolation: proptest-generated free-mode templates (grammar over every construct and built-in, boundary arguments, mutations, ladders) plus an enumerated built-in x boundary-argument grid, run in worker processes of a debug (opt-level 0, overflow checks) and a release build on 2 MiB and 8 MiB threads; oracle = the worker survives and no panic is caught; parent-side delta-debugging shrinker for crashes",
+   level="exploration",
+   text="Generated templates, companions and contexts are loaded, rendered and evaluated as expressions in child processes; every returned error is formatted in all forms. A panic (caught in the worker), a native stack overflow, an abort or a failed allocation larger than the worker's whole address-space limit is a violation attributed to the case that was running and shrunk by re-spawning single-case children. An enumerated grid applies every built-in filter/test/function/loop method to 17 subjects with 0-3 boundary arguments and keyword arguments.",
+   note="Three listed findings (deep operator ladders, deeply nested values, block self-recursion) are native stack overflows; they are excluded by construction (ladder length and fuel caps, no self.block() inside blocks) and only their own witnesses are matched. Hangs/oom under the harness limit are counted as inconclusive watchdog hits, not violations.",
+   design="3/C01"),
  "C07": dict(
    technique="property-based testing: law checking (reflexive/antisymmetric/transitive/eq-cmp-hash agreement) over generated value triples biased to same-value-different-representation twins; metamorphic agreement of template operators; algebraic laws of sort/unique/groupby/batch/slice/reverse/min/max over generated inputs with hidden identities; both map implementations",
    level="exploration",
